@@ -1,12 +1,24 @@
 (* C02 — Slot, epoch and fork-upgrade processing equals the consensus spec.
-   The executable Spec process_slots (with process_epoch of all forks and the in-place upgrades) is run, extracted,
-   against common.ProcessSlots on every slot advance of every generated chain (byte-identical post-state).
-   Refinement theorems (zrnt's batched/cached algorithms = the Spec's sub-transitions) come from Beacon/Refine. *)
-From Coq Require Import NArith List.
-From V Require Import Ssz.SszCore Beacon.Config Beacon.Schemas Beacon.State Beacon.Spec.Helpers Beacon.Spec.Transition
-  Beacon.Proofs.TransitionRules.
+   (a) The executable Spec process_slots (process_epoch of all forks, in-place upgrades) is run, extracted, against
+       common.ProcessSlots on every slot advance of every generated chain (byte-identical post-state).
+   (b) Refinement theorems: for each epoch sub-transition an Impl model that mirrors zrnt's algorithm as written in Go
+       (coq/Beacon/Impl) is PROVED equal to the Spec function (coq/Beacon/Spec/Epoch.v) for all states satisfying the
+       stated hypotheses (coq/Beacon/Refine); the Impl models are tied to the Go code by the C02IMPL correspondence
+       stream (harness/cmd/c02impl, Beacon/Refine/ImplRun.v).  See design/C02-refine.md.
+   Statements only; `None` in an Impl = Go error/panic; Go uint64 arithmetic is add64/mul64/sub64 in the Impl. *)
+From Coq Require Import NArith List Bool.
+From V Require Import Base.U64 Ssz.SszCore Beacon.Config Beacon.Schemas Beacon.State Beacon.Spec.Helpers Beacon.Spec.Epoch
+  Beacon.Spec.Transition Beacon.Proofs.TransitionRules Beacon.Proofs.C08Theorems.
+From V Require Import Beacon.Impl.Flat Beacon.Impl.Registry Beacon.Impl.Justification Beacon.Impl.Final Beacon.Impl.Slashings
+  Beacon.Impl.AltairAttester.
+From V Require Import Beacon.Refine.ListLemmas Beacon.Refine.RegistryRefine Beacon.Refine.RegistryWitness
+  Beacon.Refine.JustificationRefine Beacon.Refine.FinalRefine Beacon.Refine.SlashingsRefine Beacon.Refine.EpochCompose
+  Beacon.Refine.AltairDomain Beacon.Refine.AltairRefine Beacon.Refine.AltairCheck Beacon.Refine.AltairWitness
+  Beacon.Refine.Fixtures.
+Import ListNotations.
 Local Open Scope N_scope.
 
+(* ================= process_slots: frame facts of the Spec ================= *)
 Theorem C02_past_target_rejected : forall E f st target, target <= slot st -> process_slots E f st target = None.
 Proof. exact process_slots_past_rejected. Qed.
 Print Assumptions C02_past_target_rejected.
@@ -18,3 +30,294 @@ Theorem C02_slot_caches_state_root : forall E f st,
   /\ slot (process_slot E f st) = slot st.
 Proof. exact process_slot_caches_state_root. Qed.
 Print Assumptions C02_slot_caches_state_root.
+
+(* advancing reaches exactly the target slot, and advancing in two calls equals advancing in one *)
+Theorem C02_process_slots_reaches : forall E f st t f' st', process_slots E f st t = Some (f', st') -> slot st' = t.
+Proof. exact T_process_slots_reaches. Qed.
+Print Assumptions C02_process_slots_reaches.
+Theorem C02_process_slots_compose : forall E f st t t',
+  slot st < t -> t < t' -> t' - slot st <= MAX_SLOTS_PER_CALL ->
+  process_slots E f st t' =
+  match process_slots E f st t with
+  | Some (f1, st1) => process_slots E f1 st1 t'
+  | None => None
+  end.
+Proof. exact T_process_slots_compose. Qed.
+Print Assumptions C02_process_slots_compose.
+
+(* ================= registry updates =================
+   Go: phase0.ComputeRegistryProcessData, phase0.ProcessEpochRegistryUpdates, deneb.ProcessEpochRegistryUpdates.
+   RegBounds c ce vals: CHURN_LIMIT_QUOTIENT <> 0; 2*|vals| < 2^64; ce+1+MAX_SEED_LOOKAHEAD+|vals|+1+MIN_VALIDATOR_WITHDRAWABILITY_DELAY
+   < 2^64-1; every exit epoch is FAR_FUTURE or +|vals|+1+DELAY < 2^64-1 (no epoch arithmetic reaches 2^64-1). *)
+
+(* the scan returns (max (exit epochs ∪ {activation-exit epoch}), number of validators exiting at that epoch) *)
+Theorem C02_exit_scan_spec : forall (c : Config) (flats : list FlatValidator) (ce : N),
+  ce + 1 + MAX_SEED_LOOKAHEAD c < max64 ->
+  N.of_nat (length flats) < two64 ->
+  let q := maxl (nonfar_exits flats) (ce + 1 + MAX_SEED_LOOKAHEAD c) in
+  exit_scan c flats ce = (q, exits_at q flats).
+Proof. exact exit_scan_spec. Qed.
+Print Assumptions C02_exit_scan_spec.
+
+(* batched ejection (one pre-computed queue end and churn, advanced by a counter) = iterated initiate_validator_exit *)
+Theorem C02_eject_batch_refines : forall (E : Env) (st : BeaconState),
+  let ce := get_current_epoch E st in
+  RegBounds (cfg E) ce (validators st) ->
+  forall rd, compute_registry_process_data (cfg E) (flatten_validators (validators st)) ce = Some rd ->
+  exists vals',
+    eject_batch (cfg E) rd (validators st) = Some vals' /\
+    fold_left (fun acc i => match acc with Some st0 => initiate_validator_exit E st0 i | None => None end)
+              (rd_to_eject rd) (Some st) = Some (with_validators st vals').
+Proof. exact eject_batch_refines. Qed.
+Print Assumptions C02_eject_batch_refines.
+
+(* sort all pending (eligibility <= current epoch), cut at the churn limit, stop at eligibility > finalized epoch
+   = the spec's filter (eligibility <= finalized epoch), sort, cut *)
+Theorem C02_activation_queue_prefix : forall (flats : list FlatValidator) (ce fin limit : N),
+  fin <= ce ->
+  let fin_cond := fun fl => (fl_activation_epoch fl =? FAR_FUTURE_EPOCH) && (fl_activation_eligibility_epoch fl <=? fin) in
+  takeWhile (fun i => elig_of flats i <=? fin) (cut (sort_idx flats (idx_where (maybe_cond ce) 0 flats)) limit) =
+  firstn (N.to_nat limit) (sort_idx flats (idx_where fin_cond 0 flats)).
+Proof. exact activation_queue_prefix. Qed.
+Print Assumptions C02_activation_queue_prefix.
+
+(* the whole sub-transition, f = Phase0 .. Capella (churn limit) and Deneb (activation churn limit) *)
+Theorem C02_registry_refines : forall (E : Env) (f : fork) (st : BeaconState),
+  let ce := get_current_epoch E st in
+  RegBounds (cfg E) ce (validators st) ->
+  cp_epoch (finalized_checkpoint st) <= ce ->
+  exists st',
+    Registry.process_registry_updates (cfg E) f ce (flatten_validators (validators st)) st = Some st' /\
+    Epoch.process_registry_updates E f st = Some st'.
+Proof. exact registry_refines. Qed.
+Print Assumptions C02_registry_refines.
+
+(* the snapshot taken BEFORE registry updates is still right afterwards for what slashings / effective balances read,
+   and the epochs context's current active set is still the state's *)
+Theorem C02_registry_frame : forall (E : Env) (f : fork) (st : BeaconState),
+  let ce := get_current_epoch E st in
+  RegBounds (cfg E) ce (validators st) ->
+  cp_epoch (finalized_checkpoint st) <= ce ->
+  (forall v, In v (validators st) -> v_slashed v = true -> v_exit_epoch v <> FAR_FUTURE_EPOCH) ->
+  Forall2 (frame_rel ce) (flatten_validators (validators st)) (validators (registry_result E f st)).
+Proof. exact registry_frame. Qed.
+Print Assumptions C02_registry_frame.
+Theorem C02_registry_keeps_active : forall (E : Env) (f : fork) (st : BeaconState),
+  let ce := get_current_epoch E st in
+  RegBounds (cfg E) ce (validators st) -> cp_epoch (finalized_checkpoint st) <= ce ->
+  (forall v, In v (validators st) -> v_slashed v = true -> v_exit_epoch v <> FAR_FUTURE_EPOCH) ->
+  get_active_validator_indices (registry_result E f st) ce = get_active_validator_indices st ce.
+Proof. exact registry_keeps_active. Qed.
+Print Assumptions C02_registry_keeps_active.
+
+(* ================= justification and finalization =================
+   Go: phase0.ProcessEpochJustification (all forks), JustificationBits.NextEpoch / IsJustified (bits in one byte).
+   JustHyps: d.CurrentEpoch = current epoch; 4 stored bits; SLOTS_PER_EPOCH, SLOTS_PER_HISTORICAL_ROOT <> 0;
+   ce*SLOTS_PER_EPOCH < 2^64; the spec's own range assertion for the two block roots; total*2, prev*3, cur*3 < 2^64;
+   justified epochs +3 / +2 < 2^64. *)
+Theorem C02_justification_refines : forall (E : Env) (f : fork) (st : BeaconState) (d : JustificationStakeData)
+    (prev_target cur_target : N),
+  JustHyps E st d ->
+  js_total_active_stake d = get_total_active_balance E st ->
+  js_prev_target_stake d = prev_target -> js_curr_target_stake d = cur_target ->
+  process_epoch_justification (cfg E) d st =
+  (if get_current_epoch E st <=? GENESIS_EPOCH + 1 then Some st
+   else weigh_justification_and_finalization E st (get_total_active_balance E st) prev_target cur_target).
+Proof. exact justification_refines. Qed.
+Print Assumptions C02_justification_refines.
+
+(* ================= effective balances, resets, historical accumulators, participation rotation =================
+   Go: phase0.ProcessEffectiveBalanceUpdates (reads the stale snapshot), ProcessEth1DataReset, ProcessSlashingsReset,
+   ProcessRandaoMixesReset, ProcessHistoricalRootsUpdate, capella.ProcessHistoricalSummariesUpdate,
+   ProcessParticipationRecordUpdates, altair.ProcessParticipationFlagUpdates. *)
+Theorem C02_eff_balance_refines : forall (E : Env) (flats : list FlatValidator) (st : BeaconState),
+  EffBalHyps E flats st ->
+  Final.process_effective_balance_updates E flats st = Some (Epoch.process_effective_balance_updates E st).
+Proof. exact eff_balance_refines. Qed.
+Print Assumptions C02_eff_balance_refines.
+Theorem C02_eth1_data_reset_refines : forall (E : Env) (next_epoch : N) (st : BeaconState),
+  next_epoch = get_current_epoch E st + 1 -> EPOCHS_PER_ETH1_VOTING_PERIOD (cfg E) <> 0 ->
+  Final.process_eth1_data_reset E next_epoch st = Some (Epoch.process_eth1_data_reset E st).
+Proof. exact eth1_data_reset_refines. Qed.
+Print Assumptions C02_eth1_data_reset_refines.
+Theorem C02_slashings_reset_refines : forall (E : Env) (next_epoch : N) (st : BeaconState),
+  next_epoch = get_current_epoch E st + 1 -> EPOCHS_PER_SLASHINGS_VECTOR (cfg E) <> 0 ->
+  N.of_nat (length (slashings st)) = EPOCHS_PER_SLASHINGS_VECTOR (cfg E) ->
+  Final.process_slashings_reset E next_epoch st = Some (Epoch.process_slashings_reset E st).
+Proof. exact slashings_reset_refines. Qed.
+Print Assumptions C02_slashings_reset_refines.
+Theorem C02_randao_mixes_reset_refines : forall (E : Env) (next_epoch : N) (st : BeaconState),
+  next_epoch = get_current_epoch E st + 1 -> EPOCHS_PER_HISTORICAL_VECTOR (cfg E) <> 0 ->
+  N.of_nat (length (randao_mixes st)) = EPOCHS_PER_HISTORICAL_VECTOR (cfg E) ->
+  Final.process_randao_mixes_reset E next_epoch st = Some (Epoch.process_randao_mixes_reset E st).
+Proof. exact randao_mixes_reset_refines. Qed.
+Print Assumptions C02_randao_mixes_reset_refines.
+(* zrnt hashes the two vector roots instead of building a HistoricalBatch: htr(Container[a,b]) = H(htr a ++ htr b) *)
+Theorem C02_historical_refines : forall (E : Env) (f : fork) (next_epoch : N) (st : BeaconState),
+  next_epoch = get_current_epoch E st + 1 ->
+  SLOTS_PER_EPOCH (cfg E) <> 0 -> SLOTS_PER_HISTORICAL_ROOT (cfg E) / SLOTS_PER_EPOCH (cfg E) <> 0 ->
+  N.of_nat (length (historical_roots st)) < HISTORICAL_ROOTS_LIMIT (cfg E) ->
+  N.of_nat (length (historical_summaries st)) < HISTORICAL_ROOTS_LIMIT (cfg E) ->
+  Final.process_historical_update E f next_epoch st = Some (Epoch.process_historical_update E f st).
+Proof. exact historical_refines. Qed.
+Print Assumptions C02_historical_refines.
+Theorem C02_participation_record_refines : forall st : BeaconState,
+  Final.process_participation_record_updates st = Epoch.process_participation_record_updates st.
+Proof. exact participation_record_refines. Qed.
+Print Assumptions C02_participation_record_refines.
+Theorem C02_participation_flag_refines : forall st : BeaconState,
+  length (current_epoch_participation st) = length (validators st) ->
+  Final.process_participation_flag_updates st = Epoch.process_participation_flag_updates st.
+Proof. exact participation_flag_refines. Qed.
+Print Assumptions C02_participation_flag_refines.
+
+(* ================= slashings =================
+   Go: phase0.ProcessEpochSlashings (all forks, per-fork multiplier).  zrnt's factored penalty (eff/inc)*adj/total*inc is
+   literally the spec's expression: no division identity is used, only wrap discharge (SlashHyps lists the bounds). *)
+Theorem C02_slashings_refines : forall (E : Env) (f : fork) (ce : N) (active : list N) (flats : list FlatValidator)
+    (st : BeaconState),
+  SlashHyps E f ce active flats st ->
+  Slashings.process_epoch_slashings (cfg E) f ce active flats st = Some (Epoch.process_slashings E f st).
+Proof. exact slashings_refines. Qed.
+Print Assumptions C02_slashings_refines.
+
+(* ================= altair family: attester data, flag deltas, inactivity =================
+   Go: altair.ComputeEpochAttesterData (fixed code), ComputeFlagDeltas, ComputeInactivityPenaltyDeltas,
+   ProcessInactivityUpdates, ProcessEpochRewardsAndPenalties (+ common.Deltas.Add, ApplyDeltas); same code for
+   bellatrix, capella, deneb.  AltairHyps: current epoch >= 1; epc fields = the spec's values (C08); per-validator lists
+   as long as the registry; increment <> 0; pe+1 and the effective-balance sums over both active sets < 2^64. *)
+Theorem C02_attester_data_refines : forall (E : Env) (st : BeaconState) (epc : EpcView),
+  AltairHyps E st epc ->
+  let pe := get_previous_epoch E st in
+  let ce := get_current_epoch E st in
+  exists ad,
+    compute_epoch_attester_data (cfg E) epc (flatten_validators (validators st)) st = Some ad /\
+    ad_prev_epoch ad = pe /\ ad_cur_epoch ad = ce /\
+    ad_flats ad = flatten_validators (validators st) /\
+    ad_prev_part ad = previous_epoch_participation st /\
+    ad_eligible ad = get_eligible_validator_indices E st /\
+    (forall k, option_map (get_total_balance E st) (get_unslashed_participating_indices E st k pe) =
+               Some (match k with 0 => ad_prev_source_stake ad | 1 => ad_prev_target_stake ad | 2 => ad_prev_head_stake ad
+                             | _ => N.max (EFFECTIVE_BALANCE_INCREMENT (cfg E))
+                                      (sel_sum st (part_sel st (previous_epoch_participation st) k) (get_active_validator_indices st pe)) end)) /\
+    option_map (get_total_balance E st) (get_unslashed_participating_indices E st TIMELY_TARGET_FLAG_INDEX ce) =
+      Some (ad_cur_target_stake ad).
+Proof. exact attester_data_refines. Qed.
+Print Assumptions C02_attester_data_refines.
+Theorem C02_flag_deltas_refines : forall (E : Env) (st : BeaconState) (k : N) (epc : EpcView) (ad : EpochAttesterData),
+  AltairHyps E st epc -> ad_matches E st ad -> k < 3 -> FlagBounds E st k ->
+  compute_flag_deltas (cfg E) epc ad (2 ^ k) (flag_weight k) (is_in_inactivity_leak E st) =
+  option_map (fun rp => mkDeltas (fst rp) (snd rp)) (get_flag_index_deltas E st k).
+Proof. exact flag_deltas_refines. Qed.
+Print Assumptions C02_flag_deltas_refines.
+Theorem C02_inactivity_deltas_refines : forall (E : Env) (f : fork) (st : BeaconState) (epc : EpcView) (ad : EpochAttesterData),
+  AltairHyps E st epc -> ad_matches E st ad -> InactBounds E f st ->
+  compute_inactivity_penalty_deltas (cfg E) f ad (inactivity_scores st) =
+  option_map (fun rp => mkDeltas (fst rp) (snd rp)) (get_inactivity_penalty_deltas E f st).
+Proof. exact inactivity_deltas_refines. Qed.
+Print Assumptions C02_inactivity_deltas_refines.
+(* finalized epoch <= previous epoch holds in every reachable state at this point of process_epoch (finalized <= old
+   current-justified <= previous epoch); outside it zrnt's uint64 finality delay wraps *)
+Theorem C02_inactivity_updates_refines : forall (E : Env) (f : fork) (st : BeaconState) (epc : EpcView) (ad : EpochAttesterData),
+  AltairHyps E st epc -> ad_matches E st ad ->
+  cp_epoch (finalized_checkpoint st) <= get_previous_epoch E st ->
+  (forall s, In s (inactivity_scores st) -> s + INACTIVITY_SCORE_BIAS (cfg E) < two64) ->
+  AltairAttester.process_inactivity_updates (cfg E) ad st = Epoch.process_inactivity_updates E st.
+Proof. exact inactivity_updates_refines. Qed.
+Print Assumptions C02_inactivity_updates_refines.
+
+(* PARTIAL: hypothesis NoMidSaturation is not proved to be an invariant of reachable states.
+   zrnt sums the source/target/head/inactivity delta sets and applies them once; the spec applies them one after the
+   other, each decrease saturating at 0.  They agree iff no intermediate application saturates (NoMidSaturation, for
+   every validator: p0 <= b+r0, p0+p1 <= b+r0+r1, p0+p1+p2 <= b+r0+r1+r2, and no sum wraps).
+   Believed unreachable: a validator with effective balance >= 1 increment has balance >= effective - 0.25 ETH - (one
+   epoch's slashing and sync penalties), while the three flag penalties of an epoch are < base_reward =
+   eff * BASE_REWARD_FACTOR / sqrt(total) / ... , orders of magnitude below the balance under the shipped presets
+   (a full withdrawal empties a still-eligible validator only if MIN_VALIDATOR_WITHDRAWABILITY_DELAY = 0).
+   Witness of the difference outside the hypothesis: C02_altair_delta_order_refuted below.  Not patched in /repo. *)
+Theorem C02_altair_rewards_refines_partial : forall (E : Env) (f : fork) (st : BeaconState) (epc : EpcView) (ad : EpochAttesterData),
+  f <> Phase0 ->
+  AltairHyps E st epc -> ad_matches E st ad ->
+  cp_epoch (finalized_checkpoint st) <= get_previous_epoch E st ->
+  FlagBounds E st 0 -> FlagBounds E st 1 -> FlagBounds E st 2 -> InactBounds E f st ->
+  NoMidSaturation E f st ->
+  process_epoch_rewards_and_penalties (cfg E) f epc ad st = Epoch.process_rewards_and_penalties E f st.
+Proof. exact altair_rewards_refines. Qed.
+Print Assumptions C02_altair_rewards_refines_partial.
+(* the same from decidable hypotheses and the context computed from the state *)
+Theorem C02_altair_rewards_refines_checked_partial : forall (E : Env) (f : fork) (st : BeaconState),
+  f <> Phase0 -> altair_rewards_hypsb E f st = true ->
+  exists ad,
+    compute_epoch_attester_data (cfg E) (fresh_epc E st) (flatten_validators (validators st)) st = Some ad /\
+    process_epoch_rewards_and_penalties (cfg E) f (fresh_epc E st) ad st = Epoch.process_rewards_and_penalties E f st.
+Proof. exact altair_rewards_refines_checked. Qed.
+Print Assumptions C02_altair_rewards_refines_checked_partial.
+
+(* ================= defects of the pinned snapshot (fixed in /repo) and the open finding ================= *)
+(* exit-queue churn counted exits of earlier epochs (fix d9811fa): exits at 7 and 8, activation-exit epoch 5, churn
+   limit 2 => the original scan reports (8,2), sends the ejected validator to epoch 9; spec and repaired code: 8 *)
+Theorem C02_registry_orig_refuted :
+  exists st : BeaconState,
+    let ce := get_current_epoch tiny_env st in
+    RegBounds tiny_cfg ce (validators st) /\
+    cp_epoch (finalized_checkpoint st) <= ce /\
+    exists a b,
+      process_registry_updates_orig tiny_cfg Phase0 ce (flatten_validators (validators st)) st = Some a /\
+      Epoch.process_registry_updates tiny_env Phase0 st = Some b /\
+      map v_exit_epoch (validators a) = [7; 8; 9] /\
+      map v_exit_epoch (validators b) = [7; 8; 8] /\
+      exit_scan_orig tiny_cfg (flatten_validators (validators st)) ce = (8, 2) /\
+      exit_scan tiny_cfg (flatten_validators (validators st)) ce = (8, 1).
+Proof. exact registry_orig_refuted. Qed.
+Print Assumptions C02_registry_orig_refuted.
+(* altair current-epoch target stake summed over the previous epoch's active set (fix dcd1587) *)
+Theorem C02_altair_curr_target_orig_refuted :
+  exists st : BeaconState,
+    let E := tiny_env in
+    let epc := fresh_epc E st in
+    let flats := flatten_validators (validators st) in
+    let total := get_total_active_balance E st in
+    altair_hypsb E st = true /\
+    option_map (get_total_balance E st)
+      (get_unslashed_participating_indices E st TIMELY_TARGET_FLAG_INDEX (get_current_epoch E st)) = Some (128 * ETH) /\
+    cur_target_of (compute_epoch_attester_data tiny_cfg epc flats st) = Some (128 * ETH) /\
+    cur_target_of (compute_epoch_attester_data_orig tiny_cfg epc flats st) = Some (64 * ETH) /\
+    (total * 2 <=? 128 * ETH * 3) = true /\
+    (total * 2 <=? 64 * ETH * 3) = false.
+Proof. exact altair_curr_target_orig_refuted. Qed.
+Print Assumptions C02_altair_curr_target_orig_refuted.
+(* OPEN FINDING (current /repo): sum-then-apply vs sequential application; every hypothesis of
+   C02_altair_rewards_refines_partial holds except NoMidSaturation: zrnt 1240354 Gwei, spec 2685267 Gwei *)
+Theorem C02_altair_delta_order_refuted :
+  exists st : BeaconState,
+    let E := tiny_env in
+    altair_hypsb E st = true /\
+    (cp_epoch (finalized_checkpoint st) <=? get_previous_epoch E st) = true /\
+    flag_boundsb E st 0 = true /\ flag_boundsb E st 1 = true /\ flag_boundsb E st 2 = true /\ inact_boundsb E Bellatrix st = true /\
+    no_mid_saturationb E Bellatrix st = false /\
+    option_map (fun s => nth 0 (balances s) 0) (impl_rewards Bellatrix st) = Some 1240354 /\
+    option_map (fun s => nth 0 (balances s) 0) (Epoch.process_rewards_and_penalties E Bellatrix st) = Some 2685267.
+Proof. exact altair_delta_order_refuted. Qed.
+Print Assumptions C02_altair_delta_order_refuted.
+
+(* ================= non-vacuity ================= *)
+Example C02_registry_nonvacuous :
+  let ce := get_current_epoch tiny_env reg_example in
+  RegBounds tiny_cfg ce (validators reg_example) /\
+  cp_epoch (finalized_checkpoint reg_example) <= ce /\
+  option_map (fun s => map (fun v => (v_activation_eligibility_epoch v, v_activation_epoch v, v_exit_epoch v)) (validators s))
+    (Epoch.process_registry_updates tiny_env Phase0 reg_example)
+  = Some [ (0, 0, 15); (0, 0, 15); (0, 0, 16); (0, 0, 16); (11, FAR, FAR); (7, 15, FAR); (9, FAR, FAR); (7, 15, FAR) ].
+Proof. exact registry_nonvacuous. Qed.
+Example C02_justification_nonvacuous :
+  JustHyps tiny_env just_example just_example_data /\
+  option_map (fun s => (justification_bits s, cp_epoch (current_justified_checkpoint s), cp_epoch (finalized_checkpoint s)))
+    (process_epoch_justification tiny_cfg just_example_data just_example) = Some ([true; true; true; false], 3, 2).
+Proof. exact justification_nonvacuous. Qed.
+Example C02_altair_nonvacuous :
+  let E := tiny_env in
+  altair_rewards_hypsb E Altair w_ok = true /\
+  is_in_inactivity_leak E w_ok = true /\
+  option_map balances (Epoch.process_rewards_and_penalties E Altair w_ok) = Some [32000000000; 30998465585; 29995468163; 16997511401] /\
+  option_map inactivity_scores (Epoch.process_inactivity_updates E w_ok) = Some [0; 8; 44; 1004].
+Proof. exact altair_nonvacuous. Qed.
